@@ -474,6 +474,12 @@ struct Budget {
     test_rounds: usize,
     /// conformance lines of the small ops (miller / finalexp / prep / g2prep / out*)
     small: usize,
+    /// `t_fepow` lines (each costs a ~4000-bit exponentiation in the driver)
+    fepow: usize,
+    /// groups of three random scalar pairs in each bilinearity round (besides the 11 fixed pairs)
+    bilin_groups: usize,
+    /// `g2prep` dumps of random points (besides the generator and the identity)
+    g2prep_extra: usize,
 }
 
 fn scalar_of<E: Pairing>(k: i64) -> Fr<E> {
@@ -554,7 +560,7 @@ fn run<Fm: Fam>(o: &mut Out, id: &str, rng: &mut Rng, bud: &Budget) {
                 &fexp_s::<E<Fm>>(&(f * g)),
             );
         }
-        for f in fs.iter().skip(2).take(2) {
+        for f in fs.iter().skip(2).take(bud.fepow) {
             o.line(&format!("t_fepow {} {}", id, el(f)), &fexp_s::<E<Fm>>(f));
         }
     }
@@ -584,7 +590,7 @@ fn run<Fm: Fam>(o: &mut Out, id: &str, rng: &mut Rng, bud: &Budget) {
     }
     {
         let mut qs = vec![gen2, o2];
-        for _ in 0..bud.small.min(2) {
+        for _ in 0..bud.g2prep_extra {
             qs.push(g2::<E<Fm>>(&nz_fr::<E<Fm>>(rng)));
         }
         for q in &qs {
@@ -640,7 +646,7 @@ fn run<Fm: Fam>(o: &mut Out, id: &str, rng: &mut Rng, bud: &Budget) {
             (z, one), (one, z), (z, z), (one, one), (two, one), (one, two), (two, two),
             (m1, one), (one, m1), (m1, m1), (m1, two),
         ];
-        for _ in 0..3 {
+        for _ in 0..bud.bilin_groups {
             ab.push((small_fr::<E<Fm>>(rng), small_fr::<E<Fm>>(rng)));
             ab.push((rand_fr::<E<Fm>>(rng), rand_fr::<E<Fm>>(rng)));
             ab.push((any_fr::<E<Fm>>(rng), any_fr::<E<Fm>>(rng)));
@@ -733,28 +739,42 @@ fn main() {
     let mut o = Out::new();
 
     // budgets: `mid` for the 254–381-bit curves, `big` for the 753/761/767-bit ones
+    // budgets: `mid` for the 254–381-bit curves, `big` for the 753/761/767-bit ones.  The quick tier is
+    // sized for <= 30 s of driver time in total (about 0.1 s per conformance pairing on 381 bits).
+    let mid = if thorough {
+        Budget {
+            grid: vec![0, 1, 2, -1],
+            conf_pairings: 40,
+            conf_multi: (0..=9).chain(vec![5, 6, 7, 8, 9, 4, 3, 2, 1, 5, 9, 8]).collect(),
+            test_rounds: 10,
+            small: 9,
+            fepow: 2,
+            bilin_groups: 3,
+            g2prep_extra: 2,
+        }
+    } else {
+        Budget { grid: vec![0, 1, -1], conf_pairings: 2, conf_multi: vec![0, 2, 5, 9], test_rounds: 1, small: 2, fepow: 1, bilin_groups: 1, g2prep_extra: 1 }
+    };
+    let small298 = if thorough {
+        Budget {
+            grid: vec![0, 1, 2, -1],
+            conf_pairings: 40,
+            conf_multi: (0..=9).chain(vec![5, 6, 7, 8, 9, 4, 3, 2, 1]).collect(),
+            test_rounds: 10,
+            small: 9,
+            fepow: 2,
+            bilin_groups: 3,
+            g2prep_extra: 2,
+        }
+    } else {
+        Budget { grid: vec![0, 1, 2, -1], conf_pairings: 4, conf_multi: vec![0, 1, 2, 3, 5, 9], test_rounds: 1, small: 3, fepow: 1, bilin_groups: 1, g2prep_extra: 1 }
+    };
+    let big = if thorough {
+        Budget { grid: vec![0, 1, -1], conf_pairings: 10, conf_multi: vec![0, 1, 2, 3, 4, 5, 6, 9], test_rounds: 4, small: 4, fepow: 2, bilin_groups: 3, g2prep_extra: 1 }
+    } else {
+        Budget { grid: vec![0, 1], conf_pairings: 1, conf_multi: vec![0, 2, 5], test_rounds: 1, small: 2, fepow: 1, bilin_groups: 1, g2prep_extra: 0 }
+    };
     let m = if thorough { 10 } else { 1 };
-    let mid = Budget {
-        grid: vec![0, 1, 2, -1],
-        conf_pairings: 12 * m,
-        conf_multi: (0..=9).chain(if thorough { vec![5, 6, 7, 8, 9, 4, 3, 2, 1, 5, 9, 8] } else { vec![] }).collect(),
-        test_rounds: 2 * m,
-        small: 4 * m.min(3),
-    };
-    let small298 = Budget {
-        grid: vec![0, 1, 2, -1],
-        conf_pairings: 8 * m,
-        conf_multi: (0..=9).chain(if thorough { vec![5, 6, 7, 8, 9, 4, 3, 2, 1] } else { vec![] }).collect(),
-        test_rounds: 2 * m,
-        small: 4 * m.min(3),
-    };
-    let big = Budget {
-        grid: vec![0, 1, -1],
-        conf_pairings: 2 * m,
-        conf_multi: if thorough { vec![0, 1, 2, 3, 4, 5, 6, 9] } else { vec![0, 1, 2, 5] },
-        test_rounds: m.min(4),
-        small: 2 * m.min(2),
-    };
 
     if tier == "selfcheck" {
         // pure-Rust confirmation (no driver involved) of `multi_pairing = sum of pairings` on k copies of
@@ -778,10 +798,13 @@ fn main() {
         sc::<ark_bw6_767::BW6_767>("bw6_767");
         return;
     }
-    let tiny = Budget { grid: vec![1, 0], conf_pairings: 2 * m, conf_multi: vec![2, 5], test_rounds: 1, small: 2 };
+    let tiny = Budget { grid: vec![1, 0], conf_pairings: m, conf_multi: vec![5], test_rounds: 1, small: 2, fepow: 1, bilin_groups: 0, g2prep_extra: 0 };
+    // quick: the power-map test of the BLS12 final exponentiation runs on bls381 only (1.6 s of driver time each)
+    let tiny_nofe = Budget { fepow: if thorough { 1 } else { 0 }, ..Budget { grid: vec![1, 0], conf_pairings: m, conf_multi: vec![5], test_rounds: 1, small: 2, fepow: 0, bilin_groups: 0, g2prep_extra: 0 } };
+    let mid_nofe = Budget { fepow: if thorough { 2 } else { 0 }, grid: mid.grid.clone(), conf_multi: mid.conf_multi.clone(), ..mid };
     let want = |id: &str| only.as_deref().map_or(true, |x| x == id);
     if want("tc_bls381") {
-        run::<BlsFam<ark_test_curves::bls12_381::Config>>(&mut o, "tc_bls381", &mut rng, &tiny);
+        run::<BlsFam<ark_test_curves::bls12_381::Config>>(&mut o, "tc_bls381", &mut rng, &tiny_nofe);
     }
     if want("bw6_761g") {
         run::<Bw6Fam<Bw6_761Generic, 0>>(&mut o, "bw6_761g", &mut rng, &tiny);
@@ -790,7 +813,7 @@ fn main() {
         run::<BlsFam<ark_bls12_381::Config>>(&mut o, "bls381", &mut rng, &mid);
     }
     if want("bls377") {
-        run::<BlsFam<ark_bls12_377::Config>>(&mut o, "bls377", &mut rng, &mid);
+        run::<BlsFam<ark_bls12_377::Config>>(&mut o, "bls377", &mut rng, &mid_nofe);
     }
     if want("bn254") {
         run::<BnFam<ark_bn254::Config>>(&mut o, "bn254", &mut rng, &mid);
